@@ -15,6 +15,7 @@ package ipsets
 // resync queue tiers, resync flags, temp-name counter) next to the kernel model and desired state.
 
 import (
+	"encoding/json"
 	"fmt"
 	"os"
 	"regexp"
@@ -830,9 +831,26 @@ func TestVerif_C16(t *testing.T) {
 			}
 			cfg.Filter = true
 			cfg.Reduced = false
-			fails, err := hbfs.Replay(c16Spec(cfg, 99, false), d.History)
-			if err != nil {
-				c.ToolError(err.Error())
+			// (hbfs.Replay would run Check — whose probes drive the instance further — between the
+			// steps; replay every prefix on a fresh instance instead, exactly as the explorer does)
+			var fails []hbfs.Fail
+			var evs []c16Ev
+			for _, h := range d.History {
+				var e c16Ev
+				if err := json.Unmarshal([]byte(h), &e); err != nil {
+					c.ToolError("bad event in replay file: " + err.Error())
+					return
+				}
+				evs = append(evs, e)
+			}
+			for i := 1; i <= len(evs); i++ {
+				if err := vk.Catch(func() error {
+					fails = append(fails, c16Check(c16Replay(cfg, evs[:i]), evs[:i])...)
+					return nil
+				}); err != nil {
+					fails = append(fails, hbfs.Fail{Key: c16PanicKey(err.Error(), nil), Msg: err.Error()})
+					break
+				}
 			}
 			for _, f := range fails {
 				c.Violation(f.Key, map[string]any{"spec": d.Spec, "history": d.History, "msg": f.Msg})
